@@ -253,21 +253,26 @@ class Topology(ABC):
         """
         # should work with deep sliver reconstruction
         facn = self.add_node(name=name, node_id=node_id, site=site, ntype=NodeType.Facility)
-        facs = facn.add_network_service(name=name + '-ns', node_id=node_id + '-ns' if node_id else None,
-                                        nstype=nstype, labels=nslabels)
-        if not interfaces:
-            # if no interfaces are defined, use implicit definition and kwargs
-            # this is how the code was defined originally
-            faci = facs.add_interface(name=name + '-int', node_id=node_id + '-int' if node_id else None,
-                                      itype=InterfaceType.FacilityPort, **kwargs)
-        else:
-            # if interfaces are defined, assume a list of tuples (name, labels, capacities) are present
-            # this was added to support multiple interfaces per facility
-            for iname, ilabels, icapacities in interfaces:
-                iindex = 0
-                faci = facs.add_interface(name=iname, node_id=node_id + f'-int{iindex}' if node_id else None,
-                                          itype=InterfaceType.FacilityPort, labels=ilabels, capacities=icapacities)
-                iindex += 1
+        try:
+            facs = facn.add_network_service(name=name + '-ns', node_id=node_id + '-ns' if node_id else None,
+                                            nstype=nstype, labels=nslabels)
+            if not interfaces:
+                # if no interfaces are defined, use implicit definition and kwargs
+                # this is how the code was defined originally
+                faci = facs.add_interface(name=name + '-int', node_id=node_id + '-int' if node_id else None,
+                                          itype=InterfaceType.FacilityPort, **kwargs)
+            else:
+                # if interfaces are defined, assume a list of tuples (name, labels, capacities) are present
+                # this was added to support multiple interfaces per facility
+                for iname, ilabels, icapacities in interfaces:
+                    iindex = 0
+                    faci = facs.add_interface(name=iname, node_id=node_id + f'-int{iindex}' if node_id else None,
+                                              itype=InterfaceType.FacilityPort, labels=ilabels, capacities=icapacities)
+                    iindex += 1
+        except Exception:
+            # a facility is a single construct: do not leave part of it behind
+            self.graph_model.remove_network_node_with_components_nss_cps_and_links(node_id=facn.node_id)
+            raise
 
         return facn
 
@@ -312,18 +317,23 @@ class Topology(ABC):
         :param kwargs: pass additional parameters to add node (e.g. model)
         """
         switch = self.add_node(name=name, node_id=node_id, site=site, ntype=NodeType.Switch)
-        switch_ns = switch.add_network_service(name=name + '-ns',
-                                               node_id=node_id + '-ns' if node_id else None,
-                                               nstype=nstype, labels=nslabels)
-        # name them 'p1'-'p8'
-        for i in range(1, nports + 1):
-            labels = Labels(local_name=f'p{i}')
-            # 100G port
-            capacities = Capacities(bw=100)
-            switch_i = switch_ns.add_interface(name=f'p{i}', node_id=node_id + f'-int{i}' if node_id else None,
-                                               itype=InterfaceType.DedicatedPort,
-                                               labels=portlabels if portlabels else labels,
-                                               capacities=portcapacities if portcapacities else capacities)
+        try:
+            switch_ns = switch.add_network_service(name=name + '-ns',
+                                                   node_id=node_id + '-ns' if node_id else None,
+                                                   nstype=nstype, labels=nslabels)
+            # name them 'p1'-'p8'
+            for i in range(1, nports + 1):
+                labels = Labels(local_name=f'p{i}')
+                # 100G port
+                capacities = Capacities(bw=100)
+                switch_i = switch_ns.add_interface(name=f'p{i}', node_id=node_id + f'-int{i}' if node_id else None,
+                                                   itype=InterfaceType.DedicatedPort,
+                                                   labels=portlabels if portlabels else labels,
+                                                   capacities=portcapacities if portcapacities else capacities)
+        except Exception:
+            # a switch is a single construct: do not leave part of it behind
+            self.graph_model.remove_network_node_with_components_nss_cps_and_links(node_id=switch.node_id)
+            raise
         return switch
 
     def remove_switch(self, *, name: str):
